@@ -2012,3 +2012,43 @@ V(id='c13-nthroot-nudge-on-root', prop='C13', file='mpmath/libmp/libelefun.py',
 V(id='c34-series-lookup-outside-precision-region', prop='C33', file='mpmath/calculus/odes.py',
   old="        orig = ctx.prec\n        try:\n            ctx.prec = workprec\n            ser, xa, xb = get_series(x)\n", new="        orig = ctx.prec\n        ser, xa, xb = get_series(x)\n        try:\n            ctx.prec = workprec\n",
   expect='fire:D-ODE:interpolant')
+
+# ---- C37 Y-R6 / Y-R7 (root-offset interpreter) ----
+V(id='c37-sqrtrem-simultaneous-update', prop='C37', file='mpmath/libmp/libintmath.py',
+  old="        y -= 1\n        rem += (1+2*y)\n", new="        y, rem = y-1, rem + (1+2*y)\n",
+  expect='fire:Y-R6:sqrtrem_python')
+V(id='c37-sqrtrem-rem-before-step', prop='C37', file='mpmath/libmp/libintmath.py',
+  old="        y -= 1\n        rem += (1+2*y)\n", new="        rem += (1+2*y)\n        y -= 1\n",
+  expect='fire:Y-R6:sqrtrem_python')
+V(id='c37-sqrtrem-loop-stops-early', prop='C37', file='mpmath/libmp/libintmath.py',
+  old="    while rem < 0:\n        y -= 1", new="    while rem < -1:\n        y -= 1",
+  expect='fire:Y-R7:sqrtrem_python')
+V(id='c37-sqrtrem-no-plus-one', prop='C37', file='mpmath/libmp/libintmath.py',
+  old="    y = isqrt_fast_python(x) + 1\n    rem = x - y*y", new="    y = isqrt_fast_python(x)\n    rem = x - y*y",
+  expect='fire:Y-R7:sqrtrem_python')
+V(id='c37-sqrtrem-small-rem-wrong', prop='C37', file='mpmath/libmp/libintmath.py',
+  old="        y = isqrt_small_python(x)\n        return y, x - y*y", new="        y = isqrt_small_python(x)\n        return y, x - y*y + 1",
+  expect='fire:Y-R6:sqrtrem_python')
+V(id='c37-isqrt-neighbour-test-strict', prop='C37', file='mpmath/libmp/libintmath.py',
+  old="    return sqrtrem_python(x)[0]\n",
+  new="    if x < _1_600:\n        return isqrt_small_python(x)\n    y = isqrt_fast_python(x)\n    if y*y > x:\n        return y - 1\n"
+      "    if (y+1)*(y+1) < x:\n        return y + 1\n    return y\n",
+  expect='fire:Y-R7:isqrt_python')
+V(id='c37-isqrt-takes-remainder', prop='C37', file='mpmath/libmp/libintmath.py',
+  old="    return sqrtrem_python(x)[0]\n", new="    return sqrtrem_python(x)[1]\n",
+  expect='fire:Y-R7:isqrt_python')
+V(id='c37-isqrt-fast-unverified', prop='C37', file='mpmath/libmp/libintmath.py',
+  old="    return sqrtrem_python(x)[0]\n", new="    return isqrt_fast_python(x)\n",
+  expect='fire:Y-R7:isqrt_python')
+V(id='c37-benign-isqrt-neighbour-test', prop='C37', file='mpmath/libmp/libintmath.py',
+  old="    return sqrtrem_python(x)[0]\n",
+  new="    if x < _1_600:\n        return isqrt_small_python(x)\n    y = isqrt_fast_python(x)\n    if y*y > x:\n        return y - 1\n"
+      "    if (y+1)*(y+1) <= x:\n        return y + 1\n    return y\n",
+  expect='silent')
+V(id='c37-benign-sqrtrem-upward-fixed', prop='C37', file='mpmath/libmp/libintmath.py',
+  old="            while rem > 2*(1+y):\n                y += 1\n                rem -= (1+2*y)",
+  new="            while rem > 2*y:\n                rem -= (1+2*y)\n                y += 1",
+  expect='silent')
+V(id='c37-benign-sqrtrem-unpack', prop='C37', file='mpmath/libmp/libintmath.py',
+  old="        y -= 1\n        rem += (1+2*y)\n", new="        y, rem = y-1, rem + (2*y-1)\n",
+  expect='silent')
